@@ -20,6 +20,17 @@ CLAIMS = {
                 "Modelling and proving the vocabulary paths found four defects in the converter (F18, F22, F23, F24), all repaired.",
         "technique": "Lean 4 proof over executable models of the converters' vocabulary paths + differential correspondence with independent source parsers",
     },
+    "C20": {
+        "text": "PARTIAL (pyo3 glue not modelled). Machine-checked Lean theorems over a model of the wrapper as written in "
+                "packages/python/src/lib.rs: default flag off, single calls transparent, batch calls = list of single calls or first error "
+                "in order, no crash unless the core panics (excluded by C18). The real extension module, built from the working tree, is "
+                "driven under CPython on all shipped models through every constructor; every answer is compared with the core library's "
+                "and with the Lean model's.",
+        "design_ref": "DESIGN.md §6 C20",
+        "note": "Partial: argument conversion, GIL handling, serde_pyobject and the allocator are runtime glue outside the model; they are "
+                "exercised by the runs (including inputs only Python can produce) but not proved.",
+        "technique": "Lean 4 proof over a wrapper model + differential correspondence (CPython extension module vs core library vs Lean model)",
+    },
     "C16": {
         "text": "PARTIAL. Finite part (22 convertible reference models x 3 recorded corpora): decided by evaluating the implementation and "
                 "the compiled Lean model on every recorded input on every run and comparing both with the record - an exhaustive evaluation "
